@@ -13,7 +13,7 @@ PROPERTY = "C15"
 LEVEL = "exploration"
 BUDGET = {"quick": 12000, "thorough": 600000}
 CHUNK = 250
-RUN_TIMEOUT_S = 60
+RUN_TIMEOUT_S = 1500
 RULE = (
     "seeded histories of 0..40 block writes into one CooMatrix of shape 0..8 x 0..8, index kinds "
     "{int, numpy int, list, ndarray, slice with +/- step, empty}, value kinds {dense 2-D, dense 1-D, scalar, "
